@@ -217,18 +217,31 @@ fn select_marker_tree(tree: &Value, node: &Node, pop: &Pop, rng: &mut SmallRng) 
     }
 }
 
-fn dyn_build(ws: &[u64], scale: usize) -> DynWeighted<Pop> {
-    struct M(usize);
-    impl Selector<Pop> for M {
-        type Error = LeafErr;
-        fn select<'p, R: Rng + ?Sized>(&self, pop: &'p Pop, rng: &mut R) -> Result<&'p Probe, LeafErr> {
-            LeafSel::Marker { id: self.0 }.select(pop, rng)
-        }
+struct M(usize);
+impl Selector<Pop> for M {
+    type Error = LeafErr;
+    fn select<'p, R: Rng + ?Sized>(&self, pop: &'p Pop, rng: &mut R) -> Result<&'p Probe, LeafErr> {
+        LeafSel::Marker { id: self.0 }.select(pop, rng)
     }
+}
+fn dyn_extend(d: DynWeighted<Pop>, id: usize, w: usize) -> DynWeighted<Pop> {
+    d.with_selector(M(id), w)
+}
+fn dyn_build(ws: &[u64], scale: usize) -> DynWeighted<Pop> {
     // a common factor leaves the law unchanged; 2^32 exercises weights beyond 32 bits
     let mut d = DynWeighted::new(M(1), ws[0] as usize * scale);
     for (k, w) in ws.iter().enumerate().skip(1) {
         d = d.with_selector(M(k + 1), *w as usize * scale);
+    }
+    d
+}
+
+/// like `dyn_build`, but the object is asked to select after every extension step
+fn dyn_build_with_early_selects(ws: &[u64], scale: usize, pop: &Pop, rng: &mut SmallRng) -> DynWeighted<Pop> {
+    let mut d = dyn_build(&ws[..1], scale);
+    for k in 1..ws.len() {
+        let _ = guarded(|| d.select(pop, rng).is_ok());
+        d = dyn_extend(d, k + 1, ws[k] as usize * scale);
     }
     d
 }
@@ -330,6 +343,13 @@ pub fn replay(args: &[String]) -> i32 {
                 let ws: Vec<u64> = arr(&case["ws"]).iter().map(u).collect();
                 for scale in [1usize, 1 << 32] {
                     let d = dyn_build(&ws, scale);
+                    // a list that is extended AFTER it has been asked to select behaves as the extended list
+                    let d = if ws.len() >= 2 && ci % 3 == 0 {
+                        drop(d);
+                        dyn_build_with_early_selects(&ws, scale, &pop, &mut rng)
+                    } else {
+                        d
+                    };
                     for _ in 0..reps {
                         let ob = guarded(|| select_dyn(&d, &pop, &mut rng)).unwrap_or_else(|m| json!({"k": "panic", "msg": m}));
                         if !check(ob, &mut n, &mut bad, &mut out) {
@@ -426,7 +446,6 @@ pub fn nested_trace(args: &[String]) -> i32 {
             let weights: Vec<usize> = (0..k)
                 .map(|_| [0usize, 0, 1, 5, 1 << 32, usize::MAX][rng.random_range(0..6)])
                 .collect();
-            let overflow = weights.iter().try_fold(0usize, |a, w| a.checked_add(*w)).is_none();
             struct L(LeafSel);
             impl Selector<Pop> for L {
                 type Error = LeafErr;
@@ -437,12 +456,13 @@ pub fn nested_trace(args: &[String]) -> i32 {
             // SAFETY of Send + Sync: the selectors hold no interior state
             unsafe impl Send for L {}
             unsafe impl Sync for L {}
-            let res = guarded(|| {
-                let mut d = DynWeighted::new(L(leaf_sel(&leaves[0])), weights[0]);
-                for j in 1..k {
-                    d = d.with_selector(L(leaf_sel(&leaves[j])), weights[j]);
-                }
-                match d.select(&pop, &mut rng) {
+            // ONE object is extended step by step and asked to select in between: each selection
+            // must be a selection of the list as it stands at that moment (history-dependent state
+            // such as a cached index would show here)
+            let early: Vec<bool> = (0..k).map(|_| rng.random_range(0..2) == 0).collect();
+            let mut events: Vec<(usize, Value)> = Vec::new();
+            let sel_json = |d: &DynWeighted<Pop>, rng: &mut SmallRng| -> Value {
+                match d.select(&pop, rng) {
                     Ok(i) => locate(&pop, i).map_or(json!({"k": "foreign"}), |i| json!({"k": "member", "i": i})),
                     Err(DynWeightedError::ZeroWeightSum(e)) => json!({"k": "weight_error", "detail": format!("{e:?}")}),
                     Err(DynWeightedError::EmptyPopulation(_)) => json!({"k": "leaf_error", "err": {"k": "empty_population"}}),
@@ -451,14 +471,39 @@ pub fn nested_trace(args: &[String]) -> i32 {
                         json!({"k": "leaf_error", "err": v})
                     }
                 }
-            })
-            .unwrap_or_else(|m| json!({"k": "panic", "msg": m}));
-            let leaves: Vec<Value> = leaves.iter().zip(&weights).map(|(l, w)| {
-                let mut l = l.clone();
-                l["w"] = json!(if *w == 0 { 0 } else { 1 });
-                l
-            }).collect();
-            out.line(&json!({"ev": "dyn", "run": run, "pop": popj, "leaves": leaves, "overflow": overflow, "res": res}));
+            };
+            let res = guarded(|| {
+                let mut evs: Vec<(usize, Value)> = Vec::new();
+                let mut d = DynWeighted::new(L(leaf_sel(&leaves[0])), weights[0]);
+                for j in 1..k {
+                    if early[j] {
+                        let r = sel_json(&d, &mut rng);
+                        evs.push((j, r));
+                    }
+                    d = d.with_selector(L(leaf_sel(&leaves[j])), weights[j]);
+                }
+                let r = sel_json(&d, &mut rng);
+                evs.push((k, r));
+                if early[0] {
+                    // and the finished list once more: a second selection is as good as the first
+                    let r = sel_json(&d, &mut rng);
+                    evs.push((k, r));
+                }
+                evs
+            });
+            match res {
+                Ok(evs) => events.extend(evs),
+                Err(m) => events.push((k, json!({"k": "panic", "msg": m}))),
+            }
+            for (len, res) in events {
+                let overflow = weights[..len].iter().try_fold(0usize, |a, w| a.checked_add(*w)).is_none();
+                let lv: Vec<Value> = leaves[..len].iter().zip(&weights[..len]).map(|(l, w)| {
+                    let mut l = l.clone();
+                    l["w"] = json!(if *w == 0 { 0 } else { 1 });
+                    l
+                }).collect();
+                out.line(&json!({"ev": "dyn", "run": run, "pop": popj, "leaves": lv, "overflow": overflow, "res": res}));
+            }
             continue;
         }
         let tree = gen(&mut rng, 3, n, m);
